@@ -403,7 +403,7 @@ type Dialer struct {
 
 type rawConn struct{ fd uintptr }
 
-func (r rawConn) Control(f func(fd uintptr)) error { f(r.fd); return nil }
+func (r rawConn) Control(f func(fd uintptr)) error    { f(r.fd); return nil }
 func (r rawConn) Read(f func(fd uintptr) bool) error  { return errors.New("not supported") }
 func (r rawConn) Write(f func(fd uintptr) bool) error { return errors.New("not supported") }
 
